@@ -78,8 +78,30 @@ type laterWitness struct {
 	Note     string     `json:"note,omitempty"`
 }
 
-// laterName: the API method(s) behind a call, for signatures.
+// laterName: the API method(s) behind a call, for signatures. A node added under one of the reserved keys
+// (START, END) is a class of its own: the Workflow treats the END handle specially (End() creates it lazily).
 func laterName(op Op) string {
+	if laterReservedAdd(op) {
+		// one class whatever the Add*Node method (they share the code path; the methods are counted)
+		return "AddNode-under-reserved-key-" + op.Key
+	}
+	return laterMethod(op)
+}
+
+func laterReservedAdd(op Op) bool {
+	if op.Key != "end" && op.Key != "start" {
+		return false
+	}
+	switch op.K {
+	case "WN":
+		return op.Typ != ""
+	case "L", "P", "GN", "GC":
+		return true
+	}
+	return false
+}
+
+func laterMethod(op Op) string {
 	switch op.K {
 	case "CC":
 		return "Append" + componentMethod(op.Typ)
@@ -240,6 +262,17 @@ func laterExtensions(r *mon.Rand, fe string, keys []string, w []Op) []Op {
 	}
 	// every other Append* / Add*Node method (component stages)
 	kind := componentKinds[r.Intn(len(componentKinds))]
+	// Add*Node under a reserved key (finding workflow-add-end-key-after-compile): refused before the first
+	// Compile, so it must be refused (Graph: ErrGraphCompiled) / reported by the next Compile afterwards too
+	rk := mon.PickOne(r, []string{"end", "end", "start"})
+	var reserved []Op
+	switch fe {
+	case "workflow":
+		reserved = []Op{WL(rk), WL(rk, in(key())), WP(rk), WP(rk, in(key())), WG(rk, sub), WC(kind, rk), WC("retriever", rk, in(key())),
+			WS(rk, inF(key(), "X")), WLh(rk, "ok"), WL(rk, dep(key()))}
+	case "graph":
+		reserved = []Op{L(rk), P(rk), GN(rk, sub), GC(kind, rk), Lh(rk, "ok"), L(rk)}
+	}
 	switch fe {
 	case "chain":
 		pool = append(pool, CC("retriever", "r"), CC(kind, "k"), CC(kind, "k"))
@@ -250,7 +283,15 @@ func laterExtensions(r *mon.Rand, fe string, keys []string, w []Op) []Op {
 	}
 	n := r.Range(1, 3)
 	out := make([]Op, 0, n)
+	at := -1
+	if len(reserved) > 0 && r.Prob(0.3) {
+		at = r.Intn(n)
+	}
 	for i := 0; i < n; i++ {
+		if i == at {
+			out = append(out, reserved[r.Intn(len(reserved))])
+			continue
+		}
 		if r.Prob(0.2) {
 			alpha := fullAlphabet(fe)
 			if op := alpha[r.Intn(len(alpha))]; op.K != "K" {
@@ -342,6 +383,17 @@ func laterSeq(r *mon.Rand) *laterCase {
 			lc.tag("foreign-call")
 		}
 	}
+	// a node added under a reserved key somewhere in the construction (refused with and without earlier Compiles)
+	if lc.FE != "chain" && r.Prob(0.06) {
+		rk := mon.PickOne(r, []string{"end", "start"})
+		op := mon.PickOne(r, []Op{L(rk), P(rk)})
+		if lc.FE == "workflow" {
+			op = mon.PickOne(r, []Op{WL(rk), WP(rk), WL(rk, in("start"))})
+		}
+		pos := r.Intn(len(w) + 1)
+		w = append(w[:pos:pos], append([]Op{op}, w[pos:]...)...)
+		lc.tag("reserved-key-node-in-the-construction")
+	}
 	var ops []Op
 	// Compile calls in the middle of the construction
 	mid := map[int]string{}
@@ -378,7 +430,13 @@ func laterSeq(r *mon.Rand) *laterCase {
 			}
 		}
 		if r.Prob(0.85) {
-			ops = append(ops, laterExtensions(r, lc.FE, keys, w)...)
+			ext := laterExtensions(r, lc.FE, keys, w)
+			for _, o := range ext {
+				if laterReservedAdd(o) {
+					lc.tag("extension-adds-a-node-under-a-reserved-key")
+				}
+			}
+			ops = append(ops, ext...)
 			lc.tag("extension")
 		}
 	}
@@ -485,6 +543,9 @@ func (c *checker) checkLater(lc *laterCase) {
 				}
 				if decl {
 					rep.Count("later_calls_after_successful_compile/"+lc.FE+"-"+laterName(op), 1)
+					if laterReservedAdd(op) {
+						rep.Count("later_reserved_key_after_successful_compile/"+lc.FE+"-"+laterMethod(op), 1)
+					}
 				}
 				if lc.FE == "graph" {
 					switch {
